@@ -334,6 +334,12 @@ def r5(chk, prog, m):
             conds = dominating_conditions(f, i.block)
             valid = False
             ranged = False
+            arr = P.path(i.ops[0])
+
+            def is_len(q):
+                # the length of the fetched array: the public accessor, or - when the accessor is a plain field getter that the
+                # path summary sees through - the length field of that array's backing list
+                return bool(q) and ("json_object_array_length" in q or (arr is not None and q.startswith(arr + "->") and q.endswith("->length")))
             for c, tr in conds:
                 if getattr(c, "op", None) != "icmp":
                     continue
@@ -346,10 +352,10 @@ def r5(chk, prog, m):
                             valid = True
                 pa = P.path(a) if a.kind == "reg" else None
                 pb = P.path(b) if b.kind == "reg" else None
-                if pa == idxp and pb and "json_object_array_length" in pb:
+                if pa == idxp and is_len(pb):
                     if (c.x["pred"], tr) in (("uge", False), ("ult", True)):
                         ranged = True
-                if pb == idxp and pa and "json_object_array_length" in pa:
+                if pb == idxp and is_len(pa):
                     # the same test written from the other side: length <= idx is false / length > idx is true
                     if (c.x["pred"], tr) in (("ule", False), ("ugt", True)):
                         ranged = True
@@ -359,7 +365,7 @@ def r5(chk, prog, m):
             elif valid:
                 # a length comparison the rule does not recognise is not evidence of a missing one, unless there is no comparison
                 # with the length at all on the way to the fetch
-                anylen = any(getattr(c, "op", None) == "icmp" and any(o.kind == "reg" and "json_object_array_length" in (P.path(o) or "") for o in c.ops)
+                anylen = any(getattr(c, "op", None) == "icmp" and any(o.kind == "reg" and is_len(P.path(o)) for o in c.ops)
                              for c, tr in conds)
                 if anylen:
                     chk.undecided(rid, f.name, sig, i.locstr(), "the index is compared with the array length in a form this rule does not classify")
